@@ -20,6 +20,18 @@ class _Unknown:
 UNKNOWN = _Unknown()
 
 
+class _Raises:
+    """The evaluated expression raises at run time (e.g. min() of an empty sequence): a definite outcome, not an unknown."""
+    def __repr__(self):
+        return "RAISES"
+
+    def __bool__(self):
+        raise ValueError("truth value of RAISES")
+
+
+RAISES = _Raises()
+
+
 def teval(t, env, hooks=None):
     """env: {term: value}; hooks: list of functions (term, rec) -> value or NotImplemented."""
     hooks = hooks or []
@@ -76,16 +88,59 @@ def teval(t, env, hooks=None):
                 return slice(*vals)
             except Exception:
                 return UNKNOWN
+        if k == "call" and x[1] == ("sym", "filter") and len(x[2]) == 2 and x[2][0] == ("const", None) and not x[3]:
+            seq_ = rec(x[2][1])
+            if seq_ is UNKNOWN or seq_ is RAISES:
+                return seq_
+            try:
+                return tuple(v for v in seq_ if v)
+            except Exception:
+                return UNKNOWN
         if k == "call" and x[1][0] == "sym" and x[1][1] in ("tuple", "list", "slice", "len", "zip", "reversed", "sorted", "min", "max", "sum", "abs", "int", "bool") and not x[3]:
             vals = [rec(a) for a in x[2]]
             if any(v is UNKNOWN for v in vals):
                 return UNKNOWN
+            if any(v is RAISES for v in vals):
+                return RAISES
+            if x[1][1] in ("min", "max") and len(vals) == 1 and isinstance(vals[0], tuple) and not vals[0]:
+                return RAISES
             try:
                 fn = {"tuple": tuple, "list": tuple, "slice": slice, "len": len, "zip": lambda *a: tuple(zip(*a)), "reversed": lambda a: tuple(reversed(a)),
                       "sorted": lambda a: tuple(sorted(a)), "min": min, "max": max, "sum": sum, "abs": abs, "int": int, "bool": bool}[x[1][1]]
                 return fn(*vals)
             except Exception:
                 return UNKNOWN
+        if k == "op" and x[1] == "filtered":
+            out_ = []
+            for pr_ in x[2]:
+                c_ = rec(pr_[1][0])
+                if c_ is UNKNOWN:
+                    return UNKNOWN
+                if c_:
+                    v_ = rec(pr_[1][1])
+                    if v_ is UNKNOWN:
+                        return UNKNOWN
+                    out_.append(v_)
+            return tuple(out_)
+        if k == "attr":
+            b_ = rec(x[1])
+            if b_ is UNKNOWN or isinstance(b_, (int, float, str, tuple, type(None), Fraction)):
+                return UNKNOWN
+            try:
+                return getattr(b_, x[2])
+            except Exception:
+                return UNKNOWN
+        if k == "item":
+            b_ = rec(x[1])
+            if b_ is UNKNOWN:
+                return UNKNOWN
+            try:
+                return b_[x[2]]
+            except Exception:
+                return UNKNOWN
+        if k == "nt":
+            vals_ = [rec(a) for a in x[2]]
+            return UNKNOWN if any(v is UNKNOWN for v in vals_) else tuple(vals_)
         if k == "op" and x[1] == "comp":
             # comprehension: (kind, element, iterable, condition); the element / condition speak about elem(<iterable>) -- and, for
             # zip(a, b, ..), about elem(a), elem(b), .. -- which are bound to the successive items
@@ -118,6 +173,8 @@ def teval(t, env, hooks=None):
             return tuple(out)
         if k == "ite":
             c = rec(x[1])
+            if c is RAISES:
+                return RAISES
             if c is UNKNOWN:
                 a, b = rec(x[2]), rec(x[3])
                 return a if (a is not UNKNOWN and a == b) else UNKNOWN
@@ -126,11 +183,13 @@ def teval(t, env, hooks=None):
             op, args = x[1], x[2]
             if op == "not":
                 v = rec(args[0])
-                return UNKNOWN if v is UNKNOWN else (not v)
+                return v if (v is UNKNOWN or v is RAISES) else (not v)
             if op == "and":
                 res = True
                 for a in args:
                     v = rec(a)
+                    if v is RAISES:
+                        return UNKNOWN if res is UNKNOWN else RAISES
                     if v is UNKNOWN:
                         res = UNKNOWN
                         continue
@@ -144,6 +203,8 @@ def teval(t, env, hooks=None):
                 unk = False
                 for a in args:
                     v = rec(a)
+                    if v is RAISES:
+                        return UNKNOWN if unk else RAISES
                     if v is UNKNOWN:
                         unk = True
                         continue
